@@ -115,6 +115,7 @@ fn main() {
             let mut interp_steps = 0u64;
             let mut digest_sum = 0u64;
             let mut violations = Vec::new();
+            let mut per_tag: BTreeMap<String, u32> = BTreeMap::new();
             let mut other_prop_violations: BTreeMap<String, u64> = BTreeMap::new();
             let mut samples = Vec::new();
             let mut idx = si;
@@ -149,7 +150,10 @@ fn main() {
                         None => true,
                     };
                     if mine {
-                        if violations.len() < 6 {
+                        let key = format!("{}|{}", variant, v.tag);
+                        let n = per_tag.entry(key).or_insert(0u32);
+                        *n += 1;
+                        if *n <= 2 && violations.len() < 40 {
                             violations.push(json!({"index": idx, "violation": viol_json(v), "digest": format!("{:016x}", out.digest), "scenario": sc}));
                         }
                     } else {
